@@ -243,4 +243,85 @@ theorem inodes_final {P : Params} (hc : CodecOk P.codec) {s : Proc} {g : Ghost} 
   show List.foldl applyEff _ g.h = List.foldl applyEff _ (g.fe ++ F.effs ++ W.effs)
   rw [h1, List.append_assoc, List.foldl_append, h2, ← List.foldl_append]
 
+/-! ### the run -/
+
+/-- everything the final state of a run satisfies -/
+structure Final (P : Params) (files : List InFile) (s : Proc) : Prop where
+  ioQueue : s.ioQueue = []
+  backlog : s.backlog = 0
+  deq : s.ioDeqSeqNum = s.ioSeqNum
+  pool : s.pool.ser.queue = []
+  fragBlock : s.fragBlock = none
+  output : packRef P files = .ok s.w.output
+
+theorem run_final {P : Params} (hP : P.ans = serialAns) (hc : CodecOk P.codec) (hBpos : 0 < P.B) (hB : P.B < 2 ^ 24)
+    (mb : Nat) (files : List InFile) :
+    (∃ s, runProc P mb files = .ok s ∧ Final P files s) ∨ (∃ e, runProc P mb files = .error e ∧ packRef P files = .error e) := by
+  have h0 := PInv.init P mb
+  have hfe0 : FrontInv P.B (create P mb).fe ({} : Ghost).front (create P mb).w.inodes.length := FrontInv.init P.B
+  rcases packFiles_spec hP hc hB hBpos files (create P mb) {} _ h0 hfe0 rfl rfl with
+    ⟨s1, g1, W1, items, hp, hf, hfront, hgfe, h1, hfe1, hidle1, hfin1, hil, hmb⟩ | ⟨e, hp, hf⟩
+  · left
+    obtain ⟨s2, g2, W2, hfn, h2, hi2, hq2, hb2, hfront2, hgfe2, hil2, hF2⟩ := finish_ok hP hc hB h1 hfe1 hidle1 hfin1
+    have hfr : g1.front = items := by rw [hfront]; rfl
+    have hlen0 : (create P mb).w.inodes.length = 0 := rfl
+    rw [hlen0] at hf hgfe hil
+    have hb := h2.back
+    have hdrop : (g2.F P).stream.drop s2.ioDeqSeqNum = [] := by
+      have := hb.queue
+      rw [hq2, hi2] at this
+      simpa using this.symm
+    have hge : (g2.F P).stream.length ≤ s2.ioDeqSeqNum := by
+      have := congrArg List.length hdrop
+      simp only [List.length_drop, List.length_nil] at this
+      omega
+    have hall : (g2.F P).stream.take s2.ioDeqSeqNum = (g2.F P).stream := List.take_of_length_le hge
+    have hpend2 : g2.pend = [] := by rw [← hb.pend, hi2]; rfl
+    have hdone2 : g2.done = g2.front.map (processBlock P) := by
+      have := hb.worked
+      rw [hpend2, List.append_nil] at this
+      exact this
+    have hfi : FragIdx g2.done := by
+      rw [hdone2, hfront2]
+      exact hfe1.fragIdx.worked P
+    have hino := inodes_final hc hb hfi hall
+    have hwr := hb.wrun
+    rw [hall] at hwr
+    refine ⟨s2, ?_, ?_⟩
+    · unfold runProc; rw [hp]; exact hfn
+    · refine ⟨hq2, hb2, ?_, ?_, ?_, ?_⟩
+      · rw [hb.ioSeq]; have := hb.deqLe; omega
+      · have := hb.pool.queue
+        rw [hi2] at this
+        simpa using this
+      · rw [hb.fragBlock, hF2]; exact close_opn P _
+      · unfold packRef
+        rw [hf]
+        simp only
+        rw [hfr] at hF2
+        rw [← hF2, hwr]
+        simp only
+        congr 1
+        unfold assemble W.output
+        rw [hb.calls, hb.wr, hb.fragTbl]
+        congr 1
+        rw [hino]
+        have e1 : s2.w.inodes.length = files.length := by rw [hil2, hil]; omega
+        have e2 : g2.fe = feEffs 0 files := by rw [hgfe2, hgfe]; rfl
+        rw [e1, e2]
+  · right
+    refine ⟨e, ?_, ?_⟩
+    · unfold runProc; rw [hp]
+    · unfold packRef
+      have : (create P mb).w.inodes.length = 0 := rfl
+      rw [this] at hf
+      rw [hf]
+
+theorem run_eq_packRef {P : Params} (hP : P.ans = serialAns) (hc : CodecOk P.codec) (hBpos : 0 < P.B) (hB : P.B < 2 ^ 24)
+    (mb : Nat) (files : List InFile) : run P mb files = packRef P files := by
+  unfold run
+  rcases run_final hP hc hBpos hB mb files with ⟨s, hr, hf⟩ | ⟨e, hr, hp⟩
+  · rw [hr, hf.output]
+  · rw [hr, hp]
+
 end Sqfs.BlockProc
